@@ -172,13 +172,18 @@ Cat(ss) == IF ss = <<>> THEN <<>> ELSE Head(ss) \o Cat(Tail(ss))
 Locals == UNION {{Cat(t) : t \in [1..n -> ALPHABET]} : n \in 1..MAXLOCAL}
 
 Scenarios ==
-     {[kind |-> "addr", local |-> lp, setter |-> s, form |-> f, helo |-> "plain", dsn |-> "off"] :
-         lp \in Locals, s \in SETTERS, f \in FORMS}
+     \* (the *FromString setters trim white space - Unicode white space included - around every list item: a local part
+     \* that begins with a no-break space is not "the address the caller put" there and is left out for that setter)
+     {x \in {[kind |-> "addr", local |-> lp, setter |-> s, form |-> f, helo |-> "plain", dsn |-> "off"] :
+                lp \in Locals, s \in SETTERS, f \in FORMS} :
+        ~(x.setter = "ToFromString" /\ Len(x.local) >= 2 /\ x.local[1] = 194 /\ x.local[2] = 160)}
   \cup {[kind |-> "helo", local |-> <<97>>, setter |-> "To", form |-> "plain", helo |-> h, dsn |-> "off"] : h \in HELOS}
   \cup {[kind |-> "rawhelo", local |-> <<97>>, setter |-> "To", form |-> "plain", helo |-> h, dsn |-> "off"] : h \in HELOS}
   \* the smtp package used directly: Mail / Rcpt with a value that carries a line break
   \cup {[kind |-> "rawaddr", local |-> <<97>>, setter |-> st, form |-> "plain", helo |-> h, dsn |-> "off"] :
            h \in HELOS \cap {"plain", "cr", "lf", "crlf"}, st \in {"From", "To"}}
+  \* one smtp connection used by two mail.Clients with different DSN options, one after the other
+  \cup {[kind |-> "dsnshare", local |-> <<97>>, setter |-> "To", form |-> "plain", helo |-> "plain", dsn |-> d] : d \in DSNS \cap {"never", "succfail", "all", "hdrs", "plain"}}
   \cup {[kind |-> "dsn", local |-> <<97>>, setter |-> "To", form |-> "plain", helo |-> "plain", dsn |-> d] : d \in DSNS}
 
 Init == sc \in Scenarios /\ pc = "gen"
